@@ -342,6 +342,28 @@ def handle (req : Json) : Except String Json := do
       ("guard", ofList (fun x => Json.bool (guardHolds g x)) xs),
       ("upd", ofList (fun x => ofInt (applyUpd u x)) xs),
       ("echo", Json.arr #[pairJ g, pairJ u])])
+  | "keyeq" =>
+    -- phase 6: typed keys. reps = [[ident, text]], htab = [[text, slot]]; the transition system is run with idx := idxOf h reps
+    let reps ← (← arr (← field req "reps")).mapM (fun r => do
+      let l ← natList r
+      match l with | [a, b] => pure (KeyRep.mk a b) | _ => throw "bad rep")
+    let htab ← (← arr (← field req "htab")).mapM (fun r => do
+      let l ← natList r
+      match l with | [a, b] => pure (a, b) | _ => throw "bad htab")
+    let h : Nat → Nat := fun t => match htab.find? (fun p => p.1 == t) with | some p => p.2 | none => 0
+    let idx := idxOf h reps
+    let progs ← (← arr (← field req "progs")).mapM (fun p => do
+      (← arr p).mapM (fun seg => do (← arr seg).mapM parseInstr))
+    let sched ← natList (← field req "sched")
+    let (s, evs) := run idx (init progs) sched
+    pure (obj [
+      ("respects", Json.bool (slotsRespectEq h reps)),
+      ("slots", ofList (fun r => ofNat (slotOf h r)) reps),
+      ("idx", ofList (fun (r : KeyRep) => ofNat (idx r.ident)) reps),
+      ("events", ofList (fun (e : Nat × Ev) => Json.arr #[ofNat e.1, evToJson e.2]) evs),
+      ("arr", ofList (fun (r : KeyRep) => ofInt (s.arr (slotOf h r))) reps),
+      ("cache", ofList (fun (r : KeyRep) => ofOpt ofNat (s.cache r.ident)) reps),
+      ("terminal", Json.bool s.allTerminal)])
   | _ => throw s!"unknown op {op}"
 
 end Coba.C19.Driver
